@@ -3,7 +3,7 @@
  * Enumerates COMPLETELY the finite grammar
  *     % flags{0..3 of - + space # 0} width{none,1,4,9} precision{none,.0,.1,.3,.5} Z conv{d,i,o,x,X}
  * over values {0,1,5,8,255,4096,-1,-5,-255} and compares gmp_sprintf with the C library's sprintf of the equal long,
- * byte for byte, leaving out exactly what property C18 leaves out: combinations C gives no meaning to ('#' with d/i; '+'
+ * byte for byte (and then all pairs of ten representative conversions in ONE format string over four values), leaving out exactly what property C18 leaves out: combinations C gives no meaning to ('#' with d/i; '+'
  * or space with the unsigned o/x/X), negative values with o/x/X (signed in MPIR, documented), and '#' with precision 0
  * on the value zero in hex (documented).  Linked with printf/doprnt.c and printf/doprnti.c compiled from /repo's
  * working tree.   Prints "FAIL ..." for the first disagreement (exit 1) or "PASS <n compared>".
@@ -42,6 +42,24 @@ int main (void)
               { printf ("FAIL gmp_sprintf format=\"%s\" value=%ld: MPIR=[%s] (%d) C library=[%s] (%d) for \"%s\"\n", fg, vals[v], b, rb, a, ra, fc); return 1; }
           }
       }
+  /* two conversions in one format: the state of one conversion must not leak into the next */
+  {
+    const char *c1[] = {"%Zd", "%#Zx", "%#Zo", "%+Zd", "%-6Zd|", "%06Zd", "%.3Zd", "% Zd", "%#ZX", "%08.3Zx"};
+    const char *l1[] = {"%ld", "%#lx", "%#lo", "%+ld", "%-6ld|", "%06ld", "%.3ld", "% ld", "%#lX", "%08.3lx"};
+    long v2[] = {0, 7, 255, -9};
+    mpz_t y; mpz_init (y);
+    for (int i = 0; i < 10; i++) for (int j = 0; j < 10; j++) for (int a1 = 0; a1 < 4; a1++) for (int b1 = 0; b1 < 4; b1++)
+      {
+        int ui = strchr (c1[i], 'x') || strchr (c1[i], 'X') || strchr (c1[i], 'o'), uj = strchr (c1[j], 'x') || strchr (c1[j], 'X') || strchr (c1[j], 'o');
+        if ((ui && v2[a1] < 0) || (uj && v2[b1] < 0)) continue;
+        sprintf (fc, "%s %s", l1[i], l1[j]); sprintf (fg, "%s %s", c1[i], c1[j]);
+        mpz_set_si (z, v2[a1]); mpz_set_si (y, v2[b1]);
+        int ra = sprintf (a, fc, v2[a1], v2[b1]), rb = gmp_sprintf (b, fg, z, y);
+        n++;
+        if (ra != rb || strcmp (a, b))
+          { printf ("FAIL gmp_sprintf format=\"%s\" values=%ld,%ld: MPIR=[%s] (%d) C library=[%s] (%d)\n", fg, v2[a1], v2[b1], b, rb, a, ra); return 1; }
+      }
+  }
   printf ("PASS %ld\n", n);
   return 0;
 }
